@@ -9,6 +9,8 @@ key, continues only while the answer is not CNXN; the callback is outside the lo
 exhausted, guarded by `is not None`, before AUTH(3, 0, pubkey(rsa_keys[0]) NUL); the auth timeout is installed
 between that send and the final READ({CNXN}).  Device side: availability / maxdata bookkeeping.
 Not decided: signature validity (C17), device choices.
+HS-atomic: closing, clearing, transport.connect and the whole handshake are ONE critical section of the transport lock (nothing else reaches the new
+connection before the CNXN); the public key is padded into a new object, never in place.
 """
 import ast
 
